@@ -1873,7 +1873,7 @@ def run(ctx):
             want = fmts(ref_apply(c.models, c.pix))
             got_vals = impl[i].split(" ", 1)[1] if " " in impl[i] else ""
             # the isclose shortcut of ScalingModel is an implementation detail: scaling * x is as right as x
-            if want != got_vals and fmts(ref_apply(c.models, c.pix, shortcut=False)) != got_vals:
+            if c.dtype in CORE_DTYPES and want != got_vals and fmts(ref_apply(c.models, c.pix, shortcut=False)) != got_vals:
                 ctx.fail(f"C14:models:defining-formula(dtype={c.dtype})", "model output differs from its defining formula", {"line": lines[i], "observed": impl[i], "required": want})
     thr = [gen_thr(ctx.rng, d) for _ in range(ctx.pick(120, 1200))]
     ctx.correspond("static-threshold", [t[0] for t in thr], [t[1] for t in thr])
